@@ -1,0 +1,19 @@
+package gochannel
+
+// Helpers for the verifhook stamp points (github.com/ThreeDotsLabs/watermill/verifhook).
+// They are only evaluated as hook arguments; without the build tag "verif" the hooks are no-ops.
+
+func subscriberUUIDs(subs []*subscriber) []string {
+	ids := make([]string, len(subs))
+	for i, s := range subs {
+		ids[i] = s.uuid
+	}
+	return ids
+}
+
+func closedString(closed bool) string {
+	if closed {
+		return "closed"
+	}
+	return "open"
+}
